@@ -3,7 +3,6 @@
 use std::collections::BTreeMap;
 
 use super::c04::{self, Case};
-use super::c07::show_samples;
 use super::common::*;
 use super::PropDef;
 use crate::engine::{gen_stage_show, key_of, pass, Ctx, Outcome, Stage, Tier};
